@@ -32,6 +32,10 @@ pub fn pool_shapes() -> Vec<Vec<Level>> {
         vec![(8, 2), (4, 2), (8, 2)],
         vec![(8, 2); 4],
         vec![(8, 2); 8],
+        // taller trees (leaf indices >= 32, 10-node paths) and a 5-level chain
+        vec![(4, 10)],
+        vec![(8, 2), (2, 10)],
+        vec![(4, 2), (8, 2), (4, 5), (8, 2), (4, 2)],
     ]
 }
 
